@@ -91,6 +91,16 @@ func (cl *CheckpointList) Save(fs storage.FileSystem) (string, error) {
 	return file.URI(), nil
 }
 
+// KeepFiles calls KeepFile on every table of every checkpoint in the list.
+func (cl *CheckpointList) KeepFiles() {
+	for _, cp := range cl.checkpoints {
+		cp.Levels.KeepFiles()
+	}
+	for _, cp := range cl.checkpointsPendingRemoval {
+		cp.Levels.KeepFiles()
+	}
+}
+
 func (cl *CheckpointList) IsEmpty() bool {
 	return len(cl.checkpoints) == 0
 }
